@@ -30,6 +30,7 @@ type c08Case struct {
 	Overlap bool     `json:"overlap,omitempty"`
 	Self    bool     `json:"self,omitempty"`
 	Subs    []c08Sub `json:"subs"`
+	Resub   []c08Sub `json:"resub,omitempty"` // the same filters subscribed AGAIN with other parameters before the publish
 	PQ      int      `json:"pq"`
 	PR      bool     `json:"pr,omitempty"`
 }
@@ -98,7 +99,44 @@ func (p *c08Prop) Gen(r *Rng, i int, tier string) interface{} {
 		}
 		c.Subs = append(c.Subs, s)
 	}
+	if r.Chance(35) {
+		// a SUBSCRIBE for a filter the session already holds replaces the subscription: options, granted QoS
+		// and identifier are those of the latest one
+		for _, old := range c.Subs {
+			if r.Chance(60) {
+				n := c08Sub{F: old.F, QoS: r.Intn(3), RH: 2}
+				if c.SV == 5 {
+					n.NL, n.RAP = old.NL, old.RAP
+					if !c.Overlap {
+						n.NL, n.RAP = r.Chance(30), r.Bool()
+					}
+					switch r.Intn(3) {
+					case 0:
+						n.ID = 0
+					case 1:
+						n.ID = 21 + r.Intn(20)
+					default:
+						n.ID = old.ID
+					}
+				}
+				c.Resub = append(c.Resub, n)
+			}
+		}
+	}
 	return c
+}
+
+// effective subscriptions: the latest SUBSCRIBE per filter
+func (c *c08Case) effective() []c08Sub {
+	out := append([]c08Sub{}, c.Subs...)
+	for _, n := range c.Resub {
+		for i := range out {
+			if out[i].F == n.F {
+				out[i] = n
+			}
+		}
+	}
+	return out
 }
 
 func (p *c08Prop) Decode(raw json.RawMessage) (interface{}, error) {
@@ -238,7 +276,7 @@ func (p *c08Prop) Run(ci interface{}) interface{} {
 			return obs
 		}
 	} else {
-		for _, x := range c.Subs {
+		for _, x := range append(append([]c08Sub{}, c.Subs...), c.Resub...) {
 			if !subscribe(c08Filters[x.F], opsOf(x), x.ID) {
 				obs.Err = "no suback"
 				return obs
@@ -288,8 +326,9 @@ func (p *c08Prop) Coq(ci interface{}, oi interface{}) string {
 	if c.Kind == "retained" {
 		return fmt.Sprintf("(CRetained %s %d %s %s)", sp(c.Subs[0]), c.PQ, cList(cs), cBool(o.Err == ""))
 	}
-	ss := make([]string, len(c.Subs))
-	for i, x := range c.Subs {
+	eff := c.effective()
+	ss := make([]string, len(eff))
+	for i, x := range eff {
 		ss[i] = sp(x)
 	}
 	return fmt.Sprintf("(CLive %s %s %s %d %s %s %s)", cBool(c.Overlap), cBool(c.Self), cList(ss), c.PQ, cBool(c.PR), cList(cs), cBool(o.Err == ""))
